@@ -167,6 +167,13 @@ def builtin_dispatch_check(res):
         ('select sum(a1)', [[6]]),
         ('select max(int(a3))', [[10]]),
         ('select min(a1), max(a3), sum(a3)', [[1, 10, 25]]),
+        # ONE ITERABLE argument INSIDE an aggregate query (argument of an aggregate, WHERE, group key): still the builtin, on every record — not only on the first
+        ('select ARRAY_AGG(max([int(a1), int(a3)]))', [[[10, 7, 8]]]),
+        ('select SUM(min([int(a1), 2])), COUNT(*)', [[5, 3]]),
+        ('select count(*), MAX(a1) where min([int(a1), 2]) > 1', [[2, 3]]),
+        ('select a2, sum([int(a1), int(a3)]), count(*) group by a2', [['a', 8, 1], ['b', 13, 1], ['c', 10, 1]]),
+        ('select max(x for x in [int(a1), 0]), MIN(a3) group by max(x for x in [int(a1), 0])', [[1, 7], [2, 8], [3, 10]]),
+        ('select ARRAY_AGG(sum((int(a1), NR)))', [[[4, 3, 5]]]),
         ('select a2, min(a1) group by a2', [['a', 1], ['b', 3], ['c', 2]]),
         # ONE argument that is neither text nor a number nor iterable (a date): the builtin refuses it (TypeError), so it is the aggregate — min stays min, max stays max
         ('select min(datetime.date(2020, 1, int(a1))), max(datetime.date(2020, 1, int(a3)))', [[datetime.date(2020, 1, 1), datetime.date(2020, 1, 10)]]),
